@@ -354,8 +354,18 @@ def parse_operand(s):
         return ("move", parse_place(s[5:]))
     if s.startswith("const "):
         return ("const", s[6:].strip())
-    if re.fullmatch(r"[A-Za-z_][A-Za-z0-9_:]*", s):
-        return ("fnitem", s)
+    if not s.startswith(("copy ", "move ", "const ")) and re.match(r"^[A-Za-z_]", s):
+        # path to a function item, generic arguments allowed in any segment: Cell::<Option<T>>::get, identity::<T>
+        bare, depth = [], 0
+        for ch in s:
+            if ch == "<":
+                depth += 1
+            elif ch == ">":
+                depth -= 1
+            elif depth == 0:
+                bare.append(ch)
+        if depth == 0 and re.fullmatch(r"[A-Za-z_][A-Za-z0-9_:]*", "".join(bare)):
+            return ("fnitem", s)
     if s.startswith("<") and re.search(r"::[A-Za-z_][A-Za-z0-9_]*(::<.*>)?$", s) and not re.match(r"^_\d+", s):
         # qualified path to a function item, e.g. <<D as Deserializer<'_>>::Error as de::Error>::custom::<T>
         return ("fnitem", s)
